@@ -99,7 +99,7 @@ type vfbConfig struct {
 	N, Thr      int
 	Period      time.Duration
 	Catchup     time.Duration
-	Backend     string // bolt-trimmed | bolt-untrimmed | memdb
+	Backend     string // bolt-trimmed | bolt-untrimmed | memdb | mixed (node i uses one of the three by position)
 	MemCap      int
 	BeaconID    string
 	GenesisIn   time.Duration // genesis = start + GenesisIn
@@ -285,12 +285,20 @@ func (nt *vfbNet) eventsCopy() []vfbEvent {
 	return append([]vfbEvent(nil), nt.events...)
 }
 
+// backendOf: the storage back-end of one node (networks may mix them, as real deployments do).
+func (nt *vfbNet) backendOf(n *vfbNode) string {
+	if nt.cfg.Backend == "mixed" {
+		return []string{"bolt-trimmed", "bolt-untrimmed", "memdb"}[n.pos%3]
+	}
+	return nt.cfg.Backend
+}
+
 func (nt *vfbNet) openStore(n *vfbNode) (chain.Store, error) {
 	ctx := context.Background()
 	if nt.chained() {
 		ctx = chain.SetPreviousRequiredOnContext(ctx)
 	}
-	switch nt.cfg.Backend {
+	switch nt.backendOf(n) {
 	case "memdb":
 		c := nt.cfg.MemCap
 		if c == 0 {
@@ -317,7 +325,7 @@ func (nt *vfbNet) StartNode(n *vfbNode, mode string) error {
 	if nt.onOpen != nil {
 		nt.onOpen(n)
 	}
-	if nt.cfg.Backend == "memdb" && mode == "catchup" {
+	if nt.backendOf(n) == "memdb" && mode == "catchup" {
 		// what core does for the in-memory back-end before creating the handler (storeCurrentFromPeerNetwork):
 		// fetch the latest beacon from a peer, verify it, put it into the empty ring
 		var best *common.Beacon
